@@ -100,6 +100,8 @@ typedef struct {
 	int 				random_seed_base_labels;
 	int 				label_counter;
 
+	bool				obfuscation_started;
+
 	stack 		*		used_citations;
 	stack 		*		inline_citations_to_free;
 	struct fn_holder *	citation_hash;
